@@ -21,7 +21,10 @@ theorem sigOf_stepToks_pos (T : Tables) (p q : Pos) (s : List Byte) :
   unfold stepToks
   cases (step T s).tok with
   | none => rfl
-  | some kv => obtain ⟨k, v⟩ := kv; simp [sigOf]
+  | some kv =>
+    obtain ⟨k, v⟩ := kv
+    simp only [sigOf, List.filter]
+    split <;> simp
 
 theorem sigOf_lexLoop_pos (T : Tables) (fuel : Nat) (p q : Pos) (s : List Byte) :
     sigOf (lexLoop T fuel p s).toks = sigOf (lexLoop T fuel q s).toks := by
@@ -51,6 +54,11 @@ theorem sigs_unfold (T : Tables) (hT : TablesOk T) (c : Byte) (cs : List Byte) :
 
 theorem sigs_nil (T : Tables) : sigs T [] = [] := by
   simp [sigs, lex, lexLoop, sigOf]
+
+theorem sigStep_comment (T : Tables) (x v : List Byte) (h : (step T x).tok = some (.comment, v)) : sigStep T x = [] := by
+  unfold sigStep stepToks
+  rw [h]
+  simp [sigOf]
 
 /-! ### white space -/
 
@@ -193,8 +201,8 @@ theorem leading_trivia_skipped (T : Tables) (hT : TablesOk T) {t : List Byte} (h
     rw [e]
     have e2 : (47 :: 42 :: (body ++ [42, 47]) ++ (t ++ s)) = 47 :: (42 :: (body ++ [42, 47]) ++ (t ++ s)) := by simp
     rw [e2, sigs_unfold T hT, ← e2, hst]
-    have hsig : sigStep T (47 :: 42 :: (body ++ [42, 47]) ++ (t ++ s)) = [] := by
-      simp [sigStep, stepToks, hst, sigOf]
+    have hsig : sigStep T (47 :: 42 :: (body ++ [42, 47]) ++ (t ++ s)) = [] :=
+      sigStep_comment T _ _ (by rw [hst])
     rw [hsig]
     simp only [List.nil_append]
     have hl : (47 :: 42 :: (body ++ [42, 47])).length = body.length + 4 := by simp
@@ -208,8 +216,8 @@ theorem leading_trivia_skipped (T : Tables) (hT : TablesOk T) {t : List Byte} (h
     rw [e]
     have e2 : (47 :: 47 :: body ++ 10 :: (t ++ s)) = 47 :: (47 :: body ++ 10 :: (t ++ s)) := by simp
     rw [e2, sigs_unfold T hT, ← e2, hst]
-    have hsig : sigStep T (47 :: 47 :: body ++ 10 :: (t ++ s)) = [] := by
-      simp [sigStep, stepToks, hst, sigOf]
+    have hsig : sigStep T (47 :: 47 :: body ++ 10 :: (t ++ s)) = [] :=
+      sigStep_comment T _ _ (by rw [hst])
     rw [hsig]
     simp only [List.nil_append]
     have hl : (47 :: 47 :: body).length = 2 + body.length := by simp; omega
